@@ -114,3 +114,134 @@ COMMENT_TEXTS = [
     "#", "## double", "# # #", "ångström µm", "a" * 500, "ms**-1 extra words", "dimensionless", "1", "mV # and more", "x" , "None", "lambda", "e", "pi", "E", "t",
 ]
 HANG_TEXTS = ["9**9**9", "9**9**9**9", "10**10**10"]
+
+
+def layout_lines(spec: ModelSpec):
+    """-> list of (role, text) lines; roles: decl_open, decl_entry, decl_close, expr_header, assign, blank"""
+    out = []
+    for kind, comp, lines in blocks(spec):
+        if kind in ("parameters", "states"):
+            out.append(("decl_open", f'{kind}("{comp}",' if comp else f"{kind}("))
+            for i, l in enumerate(lines):
+                out.append(("decl_entry", "    " + l + ("," if i < len(lines) - 1 else "")))
+            out.append(("decl_close", ")"))
+        else:
+            if comp:
+                out.append(("expr_header", f'expressions("{comp}")'))
+            for l in lines:
+                out.append(("assign", l))
+        out.append(("blank", ""))
+    return out
+
+
+def join(lines, eol="\n"):
+    return eol.join(t for _, t in lines) + eol
+
+
+def comment_edits(lines, rng: random.Random, texts):
+    """Yield (label, text_class, edited_text).  One comment inserted per edit."""
+    idx = {r: [i for i, (role, _) in enumerate(lines) if role == r] for r in ("decl_open", "decl_close", "expr_header", "assign", "blank")}
+    named_assign = []
+    in_named = False
+    for i, (role, t) in enumerate(lines):
+        if role == "expr_header":
+            in_named = True
+        elif role in ("decl_open",):
+            in_named = False
+        elif role == "assign" and in_named:
+            named_assign.append(i)
+    for tx in texts:
+        c = "# " + tx if tx != "" else "#"
+        # header
+        yield ("header", tx, join([("c", c)] + lines))
+        # between blocks
+        if idx["blank"]:
+            i = rng.choice(idx["blank"][:-1] or idx["blank"])
+            yield ("between_blocks", tx, join(lines[: i + 1] + [("c", c)] + lines[i + 1 :]))
+        # directly after the expressions("C") line
+        if idx["expr_header"]:
+            i = rng.choice(idx["expr_header"])
+            yield ("after_expressions_header", tx, join(lines[: i + 1] + [("c", c)] + lines[i + 1 :]))
+        # between two assignments of a named expressions block
+        pairs = [i for i in named_assign if i + 1 in named_assign]
+        if pairs:
+            i = rng.choice(pairs)
+            yield ("inside_named_block", tx, join(lines[: i + 1] + [("c", c)] + lines[i + 1 :]))
+        # trailing an assignment (not the last line of its block, and the last line of the file)
+        cand = [i for i in idx["assign"] if "#" not in lines[i][1]]
+        if cand:
+            i = rng.choice(cand)
+            yield ("trailing_assignment", tx, join(lines[:i] + [("assign", lines[i][1] + " " + c)] + lines[i + 1 :]))
+        # trailing a declaration block
+        if idx["decl_close"]:
+            i = rng.choice(idx["decl_close"])
+            yield ("trailing_declaration_block", tx, join(lines[:i] + [("decl_close", ") " + c)] + lines[i + 1 :]))
+        # last line of the file
+        yield ("end_of_file", tx, join(lines).rstrip("\n") + "\n" + c)
+
+
+def layout_edits(lines, rng: random.Random):
+    yield ("crlf", "layout", join(lines, "\r\n"))
+    yield ("trailing_whitespace", "layout", join([(r, t + "   ") for r, t in lines]))
+    yield ("indent_assignments", "layout", join([(r, ("    " + t) if r == "assign" else t) for r, t in lines]))
+    yield ("tabs", "layout", join([(r, ("\t" + t) if r in ("assign", "decl_entry") else t) for r, t in lines]))
+    yield ("extra_blank_lines", "layout", join([x for r, t in lines for x in ((r, t), ("blank", ""))]))
+    yield ("no_blank_lines", "layout", join([(r, t) for r, t in lines if r != "blank"]))
+    yield ("no_final_newline", "layout", join(lines).rstrip("\n"))
+    yield ("spaces_around_operators", "layout", join([(r, t.replace("=", " = ", 1).replace("*", " * ") if r == "assign" and "**" not in t else t) for r, t in lines]))
+    # line continuation inside parentheses
+    out = []
+    for r, t in lines:
+        if r == "assign" and "(" in t and "#" not in t:
+            k = t.index("(")
+            out.append((r, t[: k + 1] + "\n        " + t[k + 1 :]))
+        else:
+            out.append((r, t))
+    yield ("continuation_inside_parentheses", "layout", join(out))
+    yield ("declarations_on_one_line", "layout", _one_line_decls(lines))
+
+
+def _one_line_decls(lines):
+    out, cur = [], None
+    for r, t in lines:
+        if r == "decl_open":
+            cur = t
+        elif r == "decl_entry":
+            cur += " " + t.strip()
+        elif r == "decl_close":
+            out.append(cur + ")")
+            cur = None
+        else:
+            out.append(t)
+    return "\n".join(out) + "\n"
+
+
+UNITS_EDIT = ["mV", "ms**-1", "pA*pF**-1", "1", "furlongs_per_fortnight", "m m m", "**", "(", "1/0", "", "mV extra words", "µm", "uA*uF**-1", "2", "None"]
+DESCS_EDIT = ["plain", "with, comma", "with (parens)", "semi; colon: etc.", "x = 3", "# hash", "", "ünïcödé", "a" * 200]
+
+
+def annotation_edits(spec: ModelSpec, rng: random.Random):
+    """Change / add / remove unit and description annotations of declarations; unit comments of assignments."""
+    for u in UNITS_EDIT:
+        m = ModelSpec()
+        m.states = [(n, v, u, d, c) for (n, v, _, d, c) in spec.states]
+        m.params = list(spec.params)
+        m.assigns = list(spec.assigns)
+        yield ("state_unit", u, render_blocks(blocks(m)))
+        m = ModelSpec()
+        m.states = list(spec.states)
+        m.params = [(n, v, u, "d", c) for (n, v, _, d, c) in spec.params]
+        m.assigns = list(spec.assigns)
+        if m.params:
+            yield ("parameter_unit", u, render_blocks(blocks(m)))
+    for dsc in DESCS_EDIT:
+        m = ModelSpec()
+        m.states = [(n, v, u, dsc, c) for (n, v, u, _, c) in spec.states]
+        m.params = list(spec.params)
+        m.assigns = list(spec.assigns)
+        yield ("state_description", dsc, render_blocks(blocks(m)))
+    m = ModelSpec()
+    m.states = [(n, v, None, None, c) for (n, v, _, _, c) in spec.states]
+    m.params = [(n, v, None, None, c) for (n, v, _, _, c) in spec.params]
+    m.assigns = [(n, r, c, None) for (n, r, c, _) in spec.assigns]
+    yield ("all_annotations_removed", "", render_blocks(blocks(m)))
